@@ -414,7 +414,8 @@ def _must_propagate(e):
     with NoTracing():
         import z3
         from crosshair.util import NotDeterministic
-        if isinstance(e, (z3.Z3Exception, NotDeterministic)):
+        from vf.explore import Inconclusive
+        if isinstance(e, (z3.Z3Exception, NotDeterministic, Inconclusive)):
             return True
         try:
             from crosshair.core import suspected_proxy_intolerance_exception
